@@ -222,11 +222,15 @@ def adx(h, l, c, p, ps):
     return rma(dx, ps, r4), dip, din
 
 
-def supertrend(h, l, c, p, mult):
+def supertrend(h, l, c, p, mult, tie=None):
+    """Returns the series; with [tie] set, also the first index at which a flip decision (close
+    against the previous band) is closer than [tie] to a draw - the stored bands carry the
+    4-decimal rounding of the ATR helper, so from there on the definition leaves the outcome open."""
     a = atr(h, l, c, p)
     out = []
     pu = pl = None
     pdir = 1
+    ambiguous = None
     for i in range(len(c)):
         if a[i] is None:
             out.append((None, 1, None, None))
@@ -234,6 +238,9 @@ def supertrend(h, l, c, p, mult):
         hl = (h[i] + l[i]) / 2
         up, lo, d = hl + mult * a[i], hl - mult * a[i], 1
         if pl is not None:
+            if tie is not None and ambiguous is None and (abs(c[i] - pu) <= tie or abs(c[i] - pl) <= tie
+                                                           or abs(lo - pl) <= tie or abs(up - pu) <= tie):
+                ambiguous = i
             if c[i] > pu:
                 d = 1
             elif c[i] < pl:
@@ -246,7 +253,7 @@ def supertrend(h, l, c, p, mult):
                     up = pu
         pu, pl, pdir = up, lo, d
         out.append((lo if d == 1 else up, d, lo if d == 1 else None, up if d == -1 else None))
-    return out
+    return out if tie is None else (out, ambiguous)
 
 
 def donchian(h, l, p):
